@@ -38,6 +38,7 @@ pub mod c02;
 pub mod c03;
 pub mod c04;
 pub mod c04_span;
+pub mod c04_join;
 pub mod c11;
 pub mod c11_more;
 pub mod c11_indexer;
